@@ -345,8 +345,9 @@ Definition phase3_field (w : world) (b : binding) (f : field) : list chk :=
        | None => [] end ++
        match f_address f with
        | Some (e, c) => [(code_or c A_ConstraintAddress, opt_key_eqb (Some k) (eval_kexpr w b e))]
-       | None => [] end ++
-       token_checks w b f k)
+       | None => [] end) ++
+    (* Anchor raises the token::* constraint errors without naming the account *)
+    map (fun cb => ("?", fst cb, snd cb)) (token_checks w b f k)
   end.
 
 Definition checks (e : entry) (w : world) (b : binding) (signers : list key) : list chk :=
